@@ -7,12 +7,13 @@ from .prune import is_call
 
 LEVEL = 'other'
 RULES = {
+    'C15.R5': 'remove_redundant_row_constraints decides "implied by the others" with the LP layer: the program solved is max of the row over the other rows, and the outcome table of solve_linprog is the back-end\'s (shared with C10.R1/R2)',
     'C15.R4': helpers.RULE_TEXT,
     'C15.R1': 'rows are only dropped: the rows handed to from_row_iter come from zip(rows of self.mat, self.bias) through enumerate/filter/filter_map/map(projection) only; duplicate/redundant removal return remove_rows of self; from_row_iter copies item i to row i / bias i element-wise (no memory-order access)',
     'C15.R2': 'normalisation divides a row and its bias by the same positive norm sqrt(sum x^2), used only under norm > eps',
     'C15.R3': 'guard directions: all-zero row dropped only under bias >= 0 (else canonical empty); duplicate only if rows AND biases compare equal; redundant only in the Optimal arm under a_i·p <= b_i + eps for objective -a_i over the other rows; Unbounded keeps, Error -> Err, Infeasible -> empty',
 }
-FLOORS = {'C15.R4': 3, 'C15.R1': 7, 'C15.R2': 1, 'C15.R3': 7}
+FLOORS = {'C15.R5': 5, 'C15.R4': 3, 'C15.R1': 7, 'C15.R2': 1, 'C15.R3': 7}
 EXPLANATION = 'Provenance and guard rules: a clean-up can only drop rows of the input, and drops one only under the stated test.'
 DOES_NOT_DECIDE = 'set equality (whether a dropped row was really implied: the LP answer and relative_eq\'s tolerance), minimality of the result'
 PASS_THROUGH = {'Iterator::enumerate', 'Iterator::filter', 'Iterator::filter_map', 'Iterator::map', 'Itertools::collect_vec', 'Iterator::collect', 'Iterator::zip', 'Iterator::rev'}
@@ -219,6 +220,7 @@ def from_row_iter_copy(ctx, F, rule='C15.R1'):
 
 def run(ctx):
     helpers.run_for(ctx)
+    helpers.share_from(ctx, 'c10', 'C15.R5', ['AffFuncBase::solve_linprog#', 'AffFuncBase::as_linprog#', 'AffFuncBase::status#'])
     prune.check_layout_independence(ctx, 'C15.R1')
     F = ctx.facts
     SELF = ('param', 'self')
